@@ -49,7 +49,7 @@ func argvToCmdLineStr(argv []string) string {
 func init() {
 	vlib.Register(&vlib.Check{
 		ID: "C10", Engine: "E2",
-		Rule: "argument vectors after the plain command name `vargsrec`: (S1) one argument, every string up to length 3 (quick) / 4 (thorough) over the 23-character alphabet of C08 and up to length 2 / 3 over that alphabet plus % ` = - > < ? : ! / ]; (S2) two arguments of length <= 1 over the 34 characters and the empty string (thorough: also two arguments of length <= 2 and three of length <= 1 over the 23 characters and the empty string); (S3) every vector of 1..5 (quick) / 1..6 (thorough) arguments over {empty, a, space, $x}. Each vector is escaped by the mirror of argvToCmdLineStr and by the real esccli builtin (array on stdin), the result is parsed by expressions.ParseBlock (must be exactly one function with that command), by StatementParametersParser in exec mode and executed with a recording builtin (arguments must equal the vector). (E2E) vectors of one argument of length <= 1 (thorough <= 2) and two arguments of length <= 1 over a 12 (thorough 34) character alphabet are passed to the murex binary built from the tree under test as `--execute <argv dumper> arg...`. A failing vector is minimised (greedy deletion of arguments and characters while the same clause fails) and reported under the minimal vector. non-trivial = the escaped command line differs from the arguments joined by spaces (something had to be escaped) or an argument is empty",
+		Rule: "argument vectors after the plain command name `vargsrec`: (S1) one argument, every string up to length 3 (quick) / 4 (thorough) over the 23-character alphabet of C08 and up to length 2 / 3 over that alphabet plus % ` = - > < ? : ! / ]; (S2) two arguments of length <= 1 over the 34 characters and the empty string (thorough: also two arguments of length <= 2 and three of length <= 1 over the 23 characters and the empty string); (S3) every vector of 1..5 (quick) / 1..6 (thorough) arguments over {empty, a, space, $x}. Each vector is escaped by the mirror of argvToCmdLineStr and by the real esccli builtin (called directly with the vector as parameters; for S1 up to length 2, S2 with 34 characters and S3 also as a method with the array as JSON on stdin), the result is parsed by expressions.ParseBlock (must be exactly one function with that command), by StatementParametersParser in exec mode and executed with a recording builtin (arguments must equal the vector). (E2E) vectors of one argument of length <= 1 (thorough <= 2) and two arguments of length <= 1 over a 12 (thorough 23) character alphabet and the empty string are passed to the murex binary built from the tree under test as `--execute <argv dumper> arg...`. A failing vector is minimised (greedy deletion of arguments and characters while the same clause fails) and reported under the minimal vector. non-trivial = the escaped command line differs from the arguments joined by spaces (something had to be escaped) or an argument is empty",
 		Run:    run,
 		Replay: replay,
 		Post:   post,
@@ -66,6 +66,7 @@ type env struct {
 	bin    string
 	memo   map[string][2]string // seam+argv -> clause, detail
 	binOut map[string]string    // e2e argv -> stdout of the binary
+	rt     map[string][2]string // escaped line+argv -> stage, detail
 }
 
 // the worker's HOME is redirected by mx.Init; the go tool needs the real one (module cache)
@@ -74,12 +75,12 @@ var realHome = os.Getenv("HOME")
 func prepare(c *vlib.Ctx) *env {
 	mx.Init(c.WorkDir)
 	g2rec.Install()
-	e := &env{c: c, script: filepath.Join(c.WorkDir, "argvdump.sh"), memo: map[string][2]string{}, binOut: map[string]string{}}
+	e := &env{c: c, script: filepath.Join(c.WorkDir, "argvdump.sh"), memo: map[string][2]string{}, binOut: map[string]string{}, rt: map[string][2]string{}}
 	if err := os.WriteFile(e.script, []byte("#!/bin/sh\nfor a in \"$@\"; do printf '%s\\0' \"$a\"; done\n"), 0755); err != nil {
 		c.HarnessError("cannot write argv dumper: %v", err)
 	}
 	// calibration
-	for _, seam := range []string{"exec", "esccli"} {
+	for _, seam := range []string{"exec", "esccli", "esccli-method"} {
 		if cl, d := e.verdict(seam, []string{"a b", "c"}); cl != "" {
 			c.HarnessError("calibration failed on a harmless vector (%s): %s %s", seam, cl, d)
 		}
@@ -88,11 +89,29 @@ func prepare(c *vlib.Ctx) *env {
 }
 
 func key(seam string, args []string) string {
-	b, _ := json.Marshal(args)
-	return seam + " " + string(b)
+	var b strings.Builder
+	enc := json.NewEncoder(&b)
+	enc.SetEscapeHTML(false)
+	if args == nil {
+		args = []string{}
+	}
+	enc.Encode(args)
+	return seam + " " + strings.TrimSuffix(b.String(), "\n")
 }
 
 // roundTrip: the three in-process stages for one escaped parameter string.
+func (e *env) roundTrip(line string, args []string) (stage, detail string) {
+	k := key(line, args)
+	if v, ok := e.rt[k]; ok {
+		return v[0], v[1]
+	}
+	stage, detail = roundTrip(line, args)
+	if len(e.rt) < 300000 {
+		e.rt[k] = [2]string{stage, detail}
+	}
+	return
+}
+
 func roundTrip(line string, args []string) (stage, detail string) {
 	tree, err := expressions.ParseBlock([]rune(line))
 	if err != nil {
@@ -144,33 +163,54 @@ func (e *env) verdict(seam string, args []string) (clause, detail string) {
 	switch seam {
 	case "exec":
 		line := argvToCmdLineStr(append([]string{g2rec.Recorder}, args...))
-		if st, d := roundTrip(line, args); st != "" {
-			clause, detail = "execute-argv-round-trip", st+": "+d
+		if st, d := e.roundTrip(line, args); st != "" {
+			clause, detail = "argv-round-trip", st+": "+d
 		}
-	case "esccli":
-		js, _ := json.Marshal(args)
-		r := mx.Run("esccli", &mx.Opt{Stdin: js, StdinType: "json"})
-		switch {
-		case r.Hang:
-			clause, detail = "terminates", "esccli: caller still blocked\n"+r.HangStack
-		case r.Exit != 0 || !strings.HasSuffix(r.Stdout, "\n"):
-			clause, detail = "esccli-round-trip", fmt.Sprintf("esccli-failed: `<json %s> -> esccli`: %v", js, r)
-		default:
-			out := strings.TrimSuffix(r.Stdout, "\n")
-			line := g2rec.Recorder + " " + out
-			if len(args) == 0 {
-				line = g2rec.Recorder
+	case "esccli", "esccli-method":
+		var out string
+		if seam == "esccli" {
+			// function form: the builtin is called directly with the vector as its parameters
+			fork := lang.ShellProcess.Fork(lang.F_FUNCTION | lang.F_NEW_MODULE | lang.F_NO_STDIN | lang.F_CREATE_STDOUT | lang.F_CREATE_STDERR)
+			p := fork.Process
+			p.Name.Set("esccli")
+			p.Parameters.DefineParsed(append([]string{}, args...))
+			err := lang.GoFunctions["esccli"](p)
+			b, _ := fork.Stdout.ReadAll()
+			fork.Kill()
+			if err != nil {
+				clause, detail = "argv-round-trip", fmt.Sprintf("esccli-failed: %v", err)
+				break
 			}
-			if st, d := roundTrip(line, args); st != "" {
-				clause, detail = "esccli-round-trip", st+": esccli printed "+fmt.Sprintf("%q", out)+"; "+d
+			out = string(b)
+		} else {
+			// method form: the array arrives as JSON on stdin
+			js, _ := json.Marshal(args)
+			r := mx.Run("<stdin> -> esccli", &mx.Opt{Stdin: js, StdinType: "json"})
+			if r.Hang {
+				clause, detail = "terminates", "esccli: caller still blocked\n"+r.HangStack
+				break
 			}
+			if r.Exit != 0 {
+				clause, detail = "argv-round-trip", fmt.Sprintf("esccli-failed: `<stdin: json %s> -> esccli`: %v", js, r)
+				break
+			}
+			out = r.Stdout
+		}
+		if !strings.HasSuffix(out, "\n") {
+			clause, detail = "argv-round-trip", fmt.Sprintf("esccli-failed: output %q does not end with a line feed", out)
+			break
+		}
+		out = strings.TrimSuffix(out, "\n")
+		line := g2rec.Recorder + " " + out
+		if st, d := e.roundTrip(line, args); st != "" {
+			clause, detail = "argv-round-trip", st+": esccli printed "+fmt.Sprintf("%q", out)+"; "+d
 		}
 	case "e2e":
 		got, raw, err := e.runBinary(args)
 		if err != nil {
-			clause, detail = "execute-binary-argv", fmt.Sprintf("`murex --execute <argv dumper> %q` failed: %v; %s", args, err, vlib.Clip(raw, 400))
+			clause, detail = "argv-round-trip", fmt.Sprintf("`murex --execute <argv dumper> %q` failed: %v; %s", args, err, vlib.Clip(raw, 400))
 		} else if !eq(got, args) {
-			clause, detail = "execute-binary-argv", fmt.Sprintf("`murex --execute <argv dumper> %q`: the command received %q; %s", args, got, vlib.Clip(raw, 300))
+			clause, detail = "argv-round-trip", fmt.Sprintf("`murex --execute <argv dumper> %q`: the command received %q; %s", args, got, vlib.Clip(raw, 300))
 		}
 	}
 	if len(e.memo) < 200000 {
@@ -243,6 +283,9 @@ func (e *env) minimise(seam string, args []string, clause string) []string {
 		for i := range cur {
 			rs := []rune(cur[i])
 			for j := range rs {
+				if len(rs) == 1 {
+					break // would create an empty argument, which is a defect of its own
+				}
 				cand := append([]string{}, cur...)
 				cand[i] = string(rs[:j]) + string(rs[j+1:])
 				if cl, _ := e.verdict(seam, cand); cl == clause {
@@ -306,6 +349,7 @@ func (e *env) mirrorBinding(args []string) {
 }
 
 func run(c *vlib.Ctx) {
+	t0 := time.Now()
 	e := prepare(c)
 	n := 0
 	stop := false
@@ -324,13 +368,19 @@ func run(c *vlib.Ctx) {
 		return true
 	}
 	inproc := []string{"exec", "esccli"}
+	all := []string{"exec", "esccli", "esccli-method"}
 	quick := c.Quick()
 	// S1
 	l23, l34 := 3, 2
 	if !quick {
 		l23, l34 = 4, 3
 	}
-	vlib.Strings(sigma, 0, l23, func(s string, _ []int) bool { return do(inproc, []string{s}) })
+	vlib.Strings(sigma, 0, l23, func(s string, idx []int) bool {
+		if len(idx) <= 2 {
+			return do(all, []string{s})
+		}
+		return do(inproc, []string{s})
+	})
 	if stop {
 		return
 	}
@@ -347,7 +397,7 @@ func run(c *vlib.Ctx) {
 	}
 	// S2
 	e1 := append([]string{""}, sigmaX...)
-	vlib.Seqs(len(e1), 2, 2, func(idx []int) bool { return do(inproc, []string{e1[idx[0]], e1[idx[1]]}) })
+	vlib.Seqs(len(e1), 2, 2, func(idx []int) bool { return do(all, []string{e1[idx[0]], e1[idx[1]]}) })
 	if !quick && !stop {
 		var e2 []string
 		vlib.Strings(sigma, 0, 2, func(s string, _ []int) bool { e2 = append(e2, s); return true })
@@ -369,13 +419,18 @@ func run(c *vlib.Ctx) {
 		for i, x := range idx {
 			a[i] = small[x]
 		}
-		return do(inproc, a)
+		return do(all, a)
 	})
 	if stop {
 		return
 	}
 	// E2E
+	t1 := time.Now()
+	c.Extra("wall-ms in-process part (sum over workers)", t1.Sub(t0).Milliseconds())
 	e.bin = murexBinary(c)
+	t2 := time.Now()
+	c.Extra("wall-ms waiting for/building the murex binary (sum over workers)", t2.Sub(t1).Milliseconds())
+	defer func() { c.Extra("wall-ms e2e part (sum over workers)", time.Since(t2).Milliseconds()) }()
 	e2e := func(args []string) bool {
 		if !c.Next() {
 			return true
@@ -393,7 +448,7 @@ func run(c *vlib.Ctx) {
 	l1 := 1
 	if !quick {
 		l1 = 2
-		sub = e1
+		sub = append([]string{""}, sigma...)
 	}
 	vlib.Strings(sigmaX, 0, l1, func(s string, _ []int) bool { return e2e([]string{s}) })
 	vlib.Seqs(len(sub), 2, 2, func(idx []int) bool { return e2e([]string{sub[idx[0]], sub[idx[1]]}) })
@@ -443,6 +498,13 @@ func post(m *vlib.Merged) error {
 	p := filepath.Join(vlib.Root, ".work", fmt.Sprintf("g2-murex-%d", os.Getpid()))
 	os.Remove(p)
 	os.Remove(p + ".lock")
+	// leftovers of runs that were killed
+	old, _ := filepath.Glob(filepath.Join(vlib.Root, ".work", "g2-murex-*"))
+	for _, f := range old {
+		if st, err := os.Stat(f); err == nil && time.Since(st.ModTime()) > 2*time.Hour {
+			os.Remove(f)
+		}
+	}
 	return nil
 }
 
